@@ -277,7 +277,7 @@ class E5:
                    and qt(x) == "int"]
             for ec in ecs:
                 cl = _R2Client(self, f, ec["id"])
-                Walker(cl).function(f.body, "clean")
+                Walker(cl).function(f.body, frozenset([("clean", frozenset())]))
                 if not cl.tracked:
                     continue
                 if cl.swallows and not cl.read_elsewhere:
@@ -740,7 +740,12 @@ class E5:
 
 
 class _R2Client(Client):
-    """state: 'clean' (error code known zero or already tested) / 'dirty' (may hold an unreported error)."""
+    """Disjunctive state: a set of (error-state, touched) pairs, one per group of paths.  error-state: 'clean' (error code known zero
+    or already acted upon) / 'dirty' (may hold an unreported error) / 'tested' (known to hold one: the branch must produce the empty
+    result).  touched: the locals this group of paths has referenced so far - a default-constructed result that the error path never
+    touched is still empty when it is returned, whatever the other paths did to it."""
+
+    MAXSET = 48
 
     def __init__(self, eng, func, ecid):
         self.eng, self.func, self.ecid = eng, func, ecid
@@ -749,15 +754,59 @@ class _R2Client(Client):
         self.tracked = False
         self.swallows = False
         self.read_elsewhere = False
+        self.ret_exprs = {id(kids(r)[0]) for r in walk(func.body) if r.get("kind") == "ReturnStmt" and kids(r)}
+
+    # -- set level ---------------------------------------------------------------------------------
+    @staticmethod
+    def lift(st):
+        return st if isinstance(st, frozenset) else frozenset([(st, frozenset())])
 
     def join(self, a, b):
-        return "dirty" if "dirty" in (a, b) else ("tested" if "tested" in (a, b) else "clean")
+        r = self.lift(a) | self.lift(b)
+        if len(r) > self.MAXSET:
+            worst = "dirty" if any(x[0] == "dirty" for x in r) else ("tested" if any(x[0] == "tested" for x in r) else "clean")
+            t = frozenset().union(*[x[1] for x in r])
+            r = frozenset([(worst, t)])
+        return r
 
     def stmt(self, node, st):
+        return frozenset(self._stmt1(node, x) for x in self.lift(st))
+
+    def cond_atom(self, e, st):
+        T, F = set(), set()
+        for x in self.lift(st):
+            t, f = self._atom1(e, x)
+            if t is not None:
+                T.add(t)
+            if f is not None:
+                F.add(f)
+        # an infeasible side keeps the walker going with the incoming facts (never happens for both sides at once)
+        return (frozenset(T) if T else self.lift(st)), (frozenset(F) if F else self.lift(st))
+
+    def on_return(self, node, st):
+        for x in self.lift(st):
+            self._ret1(node, x)
+
+    def on_exit(self, st):
+        # a function that ends while its local error code may hold an error nobody looked at has swallowed it
+        if any(x[0] == "dirty" for x in self.lift(st)) and not self.read_elsewhere:
+            self.swallows = True
+
+    # -- one group of paths --------------------------------------------------------------------------
+    def _touch(self, node, touched):
+        ids = {x.get("referencedDecl", {}).get("id") for x in walk(node)
+               if x.get("kind") == "DeclRefExpr" and x.get("referencedDecl", {}).get("kind") == "VarDecl"}
+        ids.discard(None)
+        return touched | ids if ids else touched
+
+    def _stmt1(self, node, x):
+        st, touched = x
         db = self.eng.db
+        if id(node) not in self.ret_exprs:
+            touched = self._touch(node, touched)
         refs = _refs(node, self.ecid)
         if not refs:
-            return st
+            return (st, touched)
         par = _parent_map(node)
         for r in refs:
             p = par.get(id(r))
@@ -776,21 +825,25 @@ class _R2Client(Client):
             if p is None or not (p.get("kind") in ("BinaryOperator", "CompoundAssignOperator") and p.get("opcode", "").endswith("=")
                                  and p.get("opcode") not in ("==", "!=", "<=", ">=") and strip(kids(p)[0]) is r):
                 self.read_elsewhere = True       # handed on, copied, returned ... (not an error-setting call, not a plain store)
-        return st
+        return (st, touched)
 
-    def cond_atom(self, e, st):
+    def _atom1(self, e, x):
+        st, touched = x
         e0 = strip(e)
         if e0.get("kind") == "DeclRefExpr" and e0.get("referencedDecl", {}).get("id") == self.ecid:
-            return ("tested" if st == "dirty" else st), "clean"     # true: error present (branch must return empty); false: no error
+            # true: error present (branch must return empty); false: no error.  With the code known to be zero the true side is dead.
+            return (None if st == "clean" and False else (("tested" if st == "dirty" else st), touched)), ("clean", touched)
         if e0.get("kind") == "BinaryOperator" and e0.get("opcode") in ("!=", "==") and _refs(e0, self.ecid):
-            a, b = [strip(x) for x in kids(e0)]
+            a, b = [strip(y) for y in kids(e0)]
             if canon(a) == "0" or canon(b) == "0":
-                t = "tested" if st == "dirty" else st
-                return (t, "clean") if e0.get("opcode") == "!=" else ("clean", t)
-        s = self.stmt(e, st)
+                t = ("tested" if st == "dirty" else st, touched)
+                c = ("clean", touched)
+                return (t, c) if e0.get("opcode") == "!=" else (c, t)
+        s = self._stmt1(e, x)
         return s, s
 
-    def on_return(self, node, st):
+    def _ret1(self, node, x):
+        st, touched = x
         if st not in ("dirty", "tested"):
             return
         ks = kids(node)
@@ -809,21 +862,10 @@ class _R2Client(Client):
         if rv.get("kind") == "DeclRefExpr":
             decl = self.eng.db.by_id.get(rv.get("referencedDecl", {}).get("id"))
             if decl is not None and decl.get("kind") == "VarDecl":
-                # a default-constructed local that nothing has touched so far is empty
-                body = self.func.body
-                touched = False
-                for x in walk(body):
-                    if x is node:
-                        break
-                    if x.get("kind") == "DeclRefExpr" and x.get("referencedDecl", {}).get("id") == decl["id"] and x is not rv:
-                        touched = True
+                # a default-constructed local that nothing has touched on these paths is empty
                 inits = [c for c in kids(decl) if c.get("kind")]
                 default_init = all(c.get("kind") in ("CXXConstructExpr",) and not kids(c) for c in inits)
-                if default_init and not touched:
+                if default_init and decl["id"] not in touched:
                     return
-        self.bad.append((node, "`return %s`" % canon(rv)[:60]))
-
-    def on_exit(self, st):
-        # a function that ends while its local error code may hold an error nobody looked at has swallowed it
-        if st == "dirty" and not self.read_elsewhere:
-            self.swallows = True
+        if not any(b[0] is node for b in self.bad):
+            self.bad.append((node, "`return %s`" % canon(rv)[:60]))
